@@ -54,6 +54,21 @@ def assigned_names(body):
     return names, fields
 
 
+EFFECT_NAMES = {"log", "flush", "print", "execute", "executemany", "write_text", "commit", "cursor", "add", "setprofile"}
+
+
+def body_has_effects(body):
+    """Does a loop body contain calls that append to the ghost effect trace? (`add` counts only on non-set receivers:
+    decided conservatively by name, a loop that really logs must say so in its invariant anyway)"""
+    for node in ast.walk(ast.Module(body=body, type_ignores=[])):
+        if isinstance(node, ast.Call):
+            f = node.func
+            name = f.attr if isinstance(f, ast.Attribute) else (f.id if isinstance(f, ast.Name) else None)
+            if name in EFFECT_NAMES and name != "add":
+                return True
+    return False
+
+
 class StmtMixin:
     def exec_block(self, body):
         for s in body:
@@ -147,9 +162,13 @@ class StmtMixin:
                 base = self.eval(t.value)
                 key = self.eval(t.slice)
                 h = isinstance(base, ZV) and R.METHODS.get((base_tag(base.tag), "__delitem__"))
-                if not h:
+                if h:
+                    self.assign(t.value, h(self, base, [key], {}, t))
+                elif isinstance(base, ZV) and (base_tag(base.tag) or "").startswith(("Dict", "dict")):
+                    self.partial(L.has(base.term, as_v(key)), "KeyError", t, "del-key")
+                    self.assign(t.value, ZV(L.dict_del(base.term, as_v(key)), base.tag))
+                else:
                     raise Unsupported("del on %r" % (base,))
-                self.assign(t.value, h(self, base, [key], {}, t))
             else:
                 raise Unsupported("del target")
 
@@ -271,6 +290,7 @@ class StmtMixin:
                     if m is None:
                         m = self.branch(z3.Bool("excmatch!%d" % id(r)) if False else L.fresh("excmatch", L.B), node.lineno)
                     if m:
+                        self.st.caught = getattr(self.st, "caught", 0) + 1
                         if h.name:
                             self.st.env[h.name] = r.exc
                         self.handling.append(r.exc)
@@ -346,6 +366,7 @@ class StmtMixin:
             n = L.len_(seqv.term)
             et = self.elem_tag(seqv)
             elem = lambda i: self.retag(L.nth(seqv.term, i), et)
+        self._loop_has_effects = body_has_effects(node.body)
         names, fields = assigned_names(node.body)
         names |= assigned_names([ast.Assign(targets=[node.target], value=ast.Constant(0), lineno=0)])[0]
         self.check_invariant(spec, ordinal, z3.IntVal(0), seqv, "entry", node.lineno)
@@ -378,6 +399,7 @@ class StmtMixin:
         if spec is None:
             raise Unsupported("while loop #%s at line %d has no invariant" % (ordinal, node.lineno))
         st = self.st
+        self._loop_has_effects = body_has_effects(node.body)
         names, fields = assigned_names(node.body)
         self.check_invariant(spec, ordinal, None, None, "entry", node.lineno)
         variant0 = None
@@ -413,7 +435,7 @@ class StmtMixin:
                 self.heap_array(f)
         for f in spec.get("havoc_fields", []):
             st.heap[f] = L.fresh("heap_" + f, z3.ArraySort(L.V, L.V))
-        if spec.get("havoc_effects", True) and self.body_has_effects:
+        if spec.get("havoc_effects", self._loop_has_effects):
             st.effects = L.fresh("eff")
 
     def fresh_like(self, old, name):
